@@ -1,3 +1,204 @@
-/- C13: property theorems (none yet). -/
+/-
+C13 — The on-disk compilation cache is deterministic and crash-safe.
+
+Property theorems (statements + proofs by lemma application; the work is in Wz/Proofs/C13_FS.lean,
+Wz/Proofs/C13_Entry.lean, Wz/Proofs/C13_EntryFixed.lean).  Models: Wz/Model/FileCache.lean (directory,
+temp files, write/sync/close/rename/remove, `fileCache.Add` as the REGENERATED step list
+`Wz.Gen.FileCache.addSteps`, writers under arbitrary schedules, injected call failures, power loss) and
+Wz/Model/CacheEntry.lean (`serializeCompiledModule`/`deserializeCompiledModule`/`getCompiledModuleFromCache`
+of engine_cache.go, byte for byte, over an ABSTRACT checksum function `crc`).
+
+What is NOT proved here (the partial part of C13, monitored by harness/cmd/hc13 instead):
+  * determinism of the compiler's output (`serialize` is a function, so the entry is determined by the compiled
+    module; that the compiled module is the same in every process is observed, not proved);
+  * the kernel's guarantees assumed by the model: rename is atomic, data written before a successful fsync
+    survives, O_EXCL temp names are unique.
+-/
+import Wz.Proofs.C13_FS
+import Wz.Proofs.C13_Entry
+import Wz.Proofs.C13_EntryFixed
+
 namespace Wz.C13
+open Wz.Model.FileCache
+open Wz.Model.CacheEntry (CM Res serialize deserialize deserializeFixed deserializeSw getFromCache)
+open Wz.Gen.FileCache (AddStep)
+
+/-! ## 1. `fileCache.Add` -/
+
+/-- Tie A: the step list regenerated from file_cache.go is the one the theorems below speak about; temp names
+come from a pattern with a random part and a literal suffix; `Rename(file.Name(), path)`. This is the obligation
+that breaks when someone reorders or drops a call of `Add`. -/
+theorem add_steps_as_modelled :
+    Wz.Gen.FileCache.addSteps = [.createTemp, .copy, .sync, .close, .rename] ∧
+    Wz.Gen.FileCache.addCleanup = [.close, .remove] ∧
+    Wz.Gen.FileCache.tempNamesFresh = true ∧
+    Wz.Gen.FileCache.renameFromTemp = true ∧ Wz.Gen.FileCache.renameToFinal = true := by
+  refine ⟨rfl, rfl, rfl, rfl, rfl⟩
+
+/-- `add_concurrent` (full strength): ANY number of writers (writer `w` adds `(spec w).2` under key
+`(spec w).1`), ANY interleaving of their file-system calls with byte-granular writes, ANY calls failing, ANY
+`Delete`s, stopped at ANY point (a dead process is one that is not scheduled again), then a power loss that drops
+an arbitrary part of all unsynced data: under every final name there is nothing, or what was there initially, or
+the COMPLETE content of some writer of that key. -/
+theorem add_concurrent (fs0 : FS) (h0 : fs0.WF0) (spec : Nat → Nat × Bytes)
+    (evs : List Ev) (keep : Nat → Nat) (key : Nat) :
+    FS.Allowed fs0 spec key
+      ((((Sys.init fs0 spec).run evs).fs.powerLoss keep).content (.final key)) :=
+  FS.add_concurrent_powerloss fs0 h0 spec evs keep key
+
+/-- the same when only processes die (no power loss) -/
+theorem add_concurrent_process_death (fs0 : FS) (h0 : fs0.WF0) (spec : Nat → Nat × Bytes)
+    (evs : List Ev) (key : Nat) :
+    FS.Allowed fs0 spec key (((Sys.init fs0 spec).run evs).fs.content (.final key)) :=
+  FS.add_concurrent fs0 h0 spec evs key
+
+/-- non-vacuity of `FS.WF0`: the empty directory -/
+theorem empty_wf0 : FS.empty.WF0 where
+  inoBound := by intro n i h; simp [FS.empty] at h
+  nonceBound := by intro k n _; rfl
+  finalsDurable := by intro k i h; simp [FS.empty] at h
+
+/-- `add_crash_safe` (full strength): one writer of `content` into an empty directory, dying after ANY number `n`
+of micro-steps (every crash point, every partially written prefix), then ANY power loss: the final name maps to
+nothing or to the complete content. -/
+theorem add_crash_safe (key : Nat) (content : Bytes) (n : Nat) (keep : Nat → Nat) :
+    let c := ((((Sys.init FS.empty (fun _ => (key, content))).run (List.replicate n (.run 0))).fs.powerLoss keep).content
+      (.final key))
+    c = none ∨ c = some content := by
+  intro c
+  have h := FS.add_concurrent_powerloss FS.empty empty_wf0 (fun _ => (key, content)) (List.replicate n (.run 0)) keep key
+  rcases h with h | h | ⟨w, _, h⟩
+  · exact Or.inl h
+  · exact Or.inl h
+  · exact Or.inr h
+
+/-- temp names are never final names (in the model by construction; for the code: `tempNamesFresh` above and the
+harness, which matches every real file name against `<64 hex>` / `<64 hex>.<digits>.tmp`) -/
+theorem temp_name_never_final (fs : FS) (key k' : Nat) : (fs.createTemp key).2.1 ≠ Name.final k' := by
+  simp [FS.createTemp]
+
+/-- progress (the safety theorems are not vacuous): a writer scheduled alone for all its steps publishes its content -/
+theorem add_completes (fs0 : FS) (h0 : fs0.WF0) (spec : Nat → Nat × Bytes) (w : Nat) :
+    ((Sys.init fs0 spec).run (List.replicate ((spec w).2.length + 4) (Ev.run w))).fs.content
+      (.final (spec w).1) = some (spec w).2 :=
+  FS.add_completes fs0 h0 spec w
+
+/-- the theorems depend on the ORDER of the calls: with `Rename` before `Sync` a power loss leaves a partial entry
+under the final name, and without `Sync` an empty one (witnesses by evaluation of the model: tests). -/
+theorem add_order_matters :
+    (((Sys.initWith [.createTemp, .copy, .rename, .sync, .close] [.close, .remove] FS.empty
+        (fun _ => (0, [1, 2, 3]))).run (List.replicate 5 (.run 0))).fs.powerLoss
+      (fun _ => 1)).content (.final 0) = some [1] ∧
+    (((Sys.initWith [.createTemp, .copy, .close, .rename] [.close, .remove] FS.empty
+        (fun _ => (0, [1, 2, 3]))).run (List.replicate 7 (.run 0))).fs.powerLoss
+      (fun _ => 0)).content (.final 0) = some [] :=
+  ⟨FS.rename_before_sync_breaks, FS.no_sync_breaks⟩
+
+/-! ## 2. the entry codec -/
+
+/-- `deser_ser`: a serialized module is read back unchanged (any checksum function; for a module WITHOUT code the
+reader skips the checksum field and takes its first byte for the source-map flag, hence the side condition — the real
+CRC-32C of the empty string is 0). -/
+theorem deser_ser (crc : Bytes → Nat) (magic ver : Bytes) (cm : CM)
+    (hwf : cm.WF) (hv : ver.length < 256) (hx : cm.exec = [] → crc [] % 256 ≠ 1) :
+    deserialize crc magic ver (serialize crc magic ver cm) = .ok cm :=
+  Entry.deser_ser crc magic ver cm hwf hv hx
+
+/-- non-vacuity of the hypotheses -/
+example : Entry.cm1.WF := Entry.cm1_wf
+
+/-- FULL STATEMENT (false for the code as it is, see the witness):
+      ∀ cm WF, ∀ k < |serialize cm|, deserialize (take k (serialize cm)) is an error.
+`truncation_rejected_partial`: it holds for every module that has code: every strict prefix of its entry is refused
+with an error. Missing: modules without code (exec = []). -/
+theorem truncation_rejected_partial (crc : Bytes → Nat) (magic ver : Bytes) (cm : CM)
+    (hwf : cm.WF) (hv : ver.length < 256) (hx : cm.exec ≠ []) (k : Nat)
+    (hk : k < (serialize crc magic ver cm).length) :
+    ∃ m, deserialize crc magic ver ((serialize crc magic ver cm).take k) = .err m :=
+  Entry.truncation_rejected crc magic ver cm hwf hv hx k hk
+
+/-- WITNESS of the finding: the entry of a module without functions, cut by 1 or by 4 bytes, is accepted -/
+theorem truncation_accepted_witness :
+    deserialize Entry.crc0 Entry.magic0 Entry.ver0
+        ((serialize Entry.crc0 Entry.magic0 Entry.ver0 Entry.cm0).take
+          ((serialize Entry.crc0 Entry.magic0 Entry.ver0 Entry.cm0).length - 1)) = .ok Entry.cm0 ∧
+    deserialize Entry.crc0 Entry.magic0 Entry.ver0
+        ((serialize Entry.crc0 Entry.magic0 Entry.ver0 Entry.cm0).take
+          ((serialize Entry.crc0 Entry.magic0 Entry.ver0 Entry.cm0).length - 4)) = .ok Entry.cm0 :=
+  Entry.truncation_accepted_witness
+
+/-- … but for EVERY valid entry an accepted prefix can only yield exactly the module that was written: a truncated
+entry is never read back as different code. -/
+theorem truncation_harmless (crc : Bytes → Nat) (magic ver : Bytes) (cm cm' : CM)
+    (hwf : cm.WF) (hv : ver.length < 256) (hx : cm.exec = [] → crc [] % 256 ≠ 1) (k : Nat)
+    (h : deserialize crc magic ver ((serialize crc magic ver cm).take k) = .ok cm') :
+    cm' = cm :=
+  Entry.truncation_harmless crc magic ver cm cm' hwf hv hx k h
+
+/-- REPAIRED variant (finding switch `crcAlways = true`: the checksum field is always read and compared):
+`truncation_rejected` at full strength, for every well-formed module and every checksum function. -/
+theorem truncation_rejected_repaired (crc : Bytes → Nat) (magic ver : Bytes) (cm : CM)
+    (hwf : cm.WF) (hv : ver.length < 256) (k : Nat)
+    (hk : k < (serialize crc magic ver cm).length) :
+    ∃ m, deserializeSw true crc magic ver ((serialize crc magic ver cm).take k) = .err m := by
+  simpa [deserializeSw] using Entry.truncation_rejected_fixed crc magic ver cm hwf hv k hk
+
+theorem deser_ser_repaired (crc : Bytes → Nat) (magic ver : Bytes) (cm : CM)
+    (hwf : cm.WF) (hv : ver.length < 256) :
+    deserializeSw true crc magic ver (serialize crc magic ver cm) = .ok cm := by
+  simpa [deserializeSw] using Entry.deser_ser_fixed crc magic ver cm hwf hv
+
+/-- `other_version_stale`: an entry written by ANOTHER version (of length < 256) is stale — or, when the whole entry
+is shorter than this version's header, an error — never accepted. -/
+theorem other_version_stale (crc : Bytes → Nat) (magic ver ver' : Bytes) (cm : CM)
+    (hne : ver ≠ ver') (hv' : ver'.length < 256) :
+    deserialize crc magic ver (serialize crc magic ver' cm) = .stale ∨
+    deserialize crc magic ver (serialize crc magic ver' cm) = .err "invalid header length" :=
+  Entry.other_version_stale crc magic ver ver' cm hne hv'
+
+/-- `never_executed`: `getCompiledModuleFromCache` hands out code only when `deserialize` said ok; a stale entry is
+deleted and the module recompiled; an error is returned to the caller of `CompileModule` and nothing is executed. -/
+theorem never_executed (crc : Bytes → Nat) (magic ver : Bytes) (entry : Option Bytes) :
+    let o := getFromCache crc magic ver entry
+    (∀ cm, o.code = some cm → ∃ e, entry = some e ∧ deserialize crc magic ver e = .ok cm) ∧
+    (∀ e, entry = some e → deserialize crc magic ver e = .stale → o.code = none ∧ o.deleted = true ∧ o.recompiled = true) ∧
+    (∀ e m, entry = some e → deserialize crc magic ver e = .err m → o.code = none ∧ o.error = some m ∧ o.recompiled = false) := by
+  intro o
+  refine ⟨?_, ?_, ?_⟩
+  · intro cm h
+    cases entry with
+    | none => simp [o, getFromCache] at h
+    | some e =>
+      refine ⟨e, rfl, ?_⟩
+      cases hd : deserialize crc magic ver e <;> simp [o, getFromCache, hd] at h
+      subst h; rfl
+  · intro e he hd; subst he; simp [o, getFromCache, hd]
+  · intro e m he hd; subst he; simp [o, getFromCache, hd]
+
+/-- truncated entries of modules with code, and entries of other versions, never reach execution -/
+theorem truncated_or_other_version_never_executed (crc : Bytes → Nat) (magic ver ver' : Bytes) (cm : CM)
+    (hwf : cm.WF) (hv : ver.length < 256) (hv' : ver'.length < 256) :
+    (cm.exec ≠ [] → ∀ k, k < (serialize crc magic ver cm).length →
+        (getFromCache crc magic ver (some ((serialize crc magic ver cm).take k))).code = none) ∧
+    (ver ≠ ver' → (getFromCache crc magic ver (some (serialize crc magic ver' cm))).code = none) := by
+  constructor
+  · intro hx k hk
+    obtain ⟨m, hm⟩ := Entry.truncation_rejected crc magic ver cm hwf hv hx k hk
+    simp [getFromCache, hm]
+  · intro hne
+    rcases Entry.other_version_stale crc magic ver ver' cm hne hv' with h | h <;> simp [getFromCache, h]
+
+/-- `serialize_deterministic` is trivial (a function): the entry is determined by version and compiled module; what
+is NOT provable here is that the compiler produces the same `cm` in every process (monitored). -/
+theorem serialize_deterministic (crc : Bytes → Nat) (magic ver : Bytes) (cm cm' : CM) (h : cm = cm') :
+    serialize crc magic ver cm = serialize crc magic ver cm' := by rw [h]
+
+/-- what the checksum does NOT cover (second finding, beyond the letter of C13): changing a byte of a function
+offset gives an entry of the same length that is accepted and yields a different module with the same code. -/
+theorem offsets_not_checksummed :
+    ∃ e' cm', e' ≠ serialize Entry.crcSum Entry.magic0 Entry.ver0 Entry.cm1 ∧
+      e'.length = (serialize Entry.crcSum Entry.magic0 Entry.ver0 Entry.cm1).length ∧
+      deserialize Entry.crcSum Entry.magic0 Entry.ver0 e' = .ok cm' ∧ cm' ≠ Entry.cm1 ∧ cm'.exec = Entry.cm1.exec :=
+  Entry.offsets_not_checksummed
+
 end Wz.C13
